@@ -217,6 +217,25 @@ pub fn c02(tier: Tier, seed: u64) -> Verdict {
                 let p = Profile { w_clone: 30, w_trunc: 14, ..Profile::faults() };
                 merged.merge(run_sharded("C02", seed, 100, nf, || history_strategy(&p), super::enumerators::fault_case("C02", false)));
             }
+            if merged.violation.is_none() {
+                // the argument of the operation reads the buffer the target still shares (s.push_str(&s.clone()), ...)
+                let mut m = Merged::new();
+                'o: for state in 0..super::alias::STATES {
+                    for op in 0..super::alias::OPS {
+                        for idx in 0..super::alias::IDXS {
+                            m.evaluations += 1;
+                            if let Some((clause, detail)) = super::alias::alias_case(state, op, idx) {
+                                m.violation = Some(Violation { case: serde_json::json!({"kind": "alias", "state": state, "op": op, "idx": idx}), clause, step: 0, detail });
+                                break 'o;
+                            }
+                            if state >= 2 {
+                                m.distinct.insert(digest(&("alias", state, op, idx)));
+                            }
+                        }
+                    }
+                }
+                merged.merge(m);
+            }
         },
         "C02",
         tier,
